@@ -3,6 +3,7 @@ package main
 import (
 	"fmt"
 	"go/ast"
+	"go/constant"
 	"go/token"
 	"go/types"
 	"sort"
@@ -278,11 +279,20 @@ func c01r16(c *Ctx, r *Report) {
 	n := 0
 	eachInstr(fn, func(in ssa.Instruction) {
 		call, ok := in.(*ssa.Call)
-		if !ok || calleeName(call.Common()) != "(*strings.Builder).WriteByte" {
+		if !ok {
+			return
+		}
+		switch calleeName(call.Common()) {
+		case "(*strings.Builder).WriteByte", "(*strings.Builder).WriteRune", "(*strings.Builder).WriteString":
+		default:
 			return
 		}
 		n++
 		arg := call.Call.Args[1]
+		if str1, ok := constString(arg); ok && len(str1) == 1 {
+			// WriteString(" ") is WriteByte(' ')
+			arg = ssa.NewConst(constant.MakeInt64(int64(str1[0])), types.Typ[types.Uint8])
+		}
 		good := false
 		why := describe(arg)
 		if idx, ok := arg.(*ssa.Index); ok && idx.X == ssa.Value(str) {
@@ -358,7 +368,8 @@ func c01r17(c *Ctx, r *Report) {
 	var tests []ssa.Instruction
 	eachInstr(fn, func(in ssa.Instruction) {
 		bo, ok := in.(*ssa.BinOp)
-		if ok && bo.Op == token.GTR && bo.X == ssa.Value(fn.Params[1]) && isConstInt(bo.Y, vNW) {
+		// class > charNonWord, or the same test spelled class >= charNonWord+1
+		if ok && bo.X == ssa.Value(fn.Params[1]) && (bo.Op == token.GTR && isConstInt(bo.Y, vNW) || bo.Op == token.GEQ && isConstInt(bo.Y, vNW+1)) {
 			tests = append(tests, bo)
 		}
 	})
@@ -505,8 +516,10 @@ func c10r15(c *Ctx, r *Report) {
 		for cond := range cc.of(st) {
 			onNth := false
 			if bo, ok := cond.(*ssa.BinOp); ok && (bo.Op == token.EQL || bo.Op == token.NEQ) {
-				if f, _ := loadedField(bo.X); f == fNth {
-					onNth = true
+				for _, side := range []ssa.Value{bo.X, bo.Y} {
+					if f, _ := loadedField(side); f == fNth {
+						onNth = true
+					}
 				}
 			}
 			if !onNth {
@@ -689,8 +702,10 @@ func c14r23(c *Ctx, r *Report) {
 		for cond := range cc.of(call) {
 			onCmd := false
 			if bo, ok := cond.(*ssa.BinOp); ok && (bo.Op == token.EQL || bo.Op == token.NEQ) {
-				if f, _ := loadedField(bo.X); f == fCmd {
-					onCmd = true
+				for _, side := range []ssa.Value{bo.X, bo.Y} {
+					if f, _ := loadedField(side); f == fCmd {
+						onCmd = true
+					}
 				}
 			}
 			if !onCmd {
